@@ -309,14 +309,32 @@ impl<'a> Gen<'a> {
 
     /// date ::= <yyyy/mm/dd> | <yyyy-mm-dd>
     pub fn date(&mut self) -> String {
-        let y = match self.r.below(8) {
-            0 => *self.r.pick(&[2000u32, 1900, 2100, 2024, 2400, 1996]),
-            1 => self.r.below(10000) as u32,
-            _ => 1990 + self.r.below(60) as u32,
+        // one date in five lies on a calendar boundary drawn on purpose (caldate.rs): the days
+        // around New Year whose ISO week belongs to the neighbouring year, 1 January / 31 December,
+        // leap days and the 28 February / 1 March of 1900 and 2100, month ends, 1900-2100
+        let (y, m, d) = if self.r.chance(1, 5) {
+            use chrono::Datelike;
+            let dt = crate::caldate::gen(self.r);
+            self.tag(match crate::caldate::class_of(dt) {
+                "iso_week_year_differs" => "date-iso-week-year-differs",
+                "year_first_last" => "date-first-or-last-day-of-year",
+                "leap_day" => "date-leap-day",
+                "month_end" => "date-month-end",
+                "month_start" => "date-month-start",
+                _ => "date-drawn-from-calendar",
+            });
+            (dt.year() as u32, dt.month(), dt.day())
+        } else {
+            let y = match self.r.below(8) {
+                0 => *self.r.pick(&[2000u32, 1900, 2100, 2024, 2400, 1996]),
+                1 => self.r.below(10000) as u32,
+                _ => 1990 + self.r.below(60) as u32,
+            };
+            let m = 1 + self.r.below(12) as u32;
+            let dim = Self::days_in_month(y, m);
+            let d = if self.r.chance(1, 5) { dim } else { 1 + self.r.below(dim as u64) as u32 };
+            (y, m, d)
         };
-        let m = 1 + self.r.below(12) as u32;
-        let dim = Self::days_in_month(y, m);
-        let d = if self.r.chance(1, 5) { dim } else { 1 + self.r.below(dim as u64) as u32 };
         let sep = if self.r.chance(2, 3) { '/' } else { '-' };
         let short = (m < 10 || d < 10) && self.r.chance(1, 3) && self.extend("short-month-day");
         let short_year = y < 1000 && self.r.chance(1, 2) && self.extend("short-year");
